@@ -16,6 +16,7 @@ import (
 	"fmt"
 	"go/constant"
 	"go/types"
+	"os"
 	"sort"
 	"strings"
 
@@ -1169,12 +1170,40 @@ func (s *seqRT) ruleIters() {
 	c.min("ITER.CHAN", 2)
 	c.min("ITER.PURE", 5)
 	c.guard("ITER.IV", func() {
-		s.ruleIterIndex("NewIntegerIter", "n", func(op AV) string { return canon(op) }, false)
+		// the two inductive forms first; an integer iterator written in neither of them is evaluated on concrete
+		// operands instead (bounded, and said so)
+		inductive := false
+		func() {
+			defer func() {
+				if r := recover(); r != nil {
+					inductive = false
+				}
+			}()
+			inductive = c.trial(func() {
+				s.ruleIterIndex("NewIntegerIter", "n", func(op AV) string { return canon(op) }, false)
+			})
+		}()
+		if !inductive {
+			s.iterIntegerBounded()
+		}
 	})
 	c.guard("ITER.IV", func() {
 		s.ruleIterIndex("NewSliceIter", "slice", func(op AV) string { return "len(" + canon(op) + ")" }, true)
 	})
-	c.guard("ITER.STR", s.ruleIterString)
+	c.guard("ITER.STR", func() {
+		inductive := false
+		func() {
+			defer func() {
+				if r := recover(); r != nil {
+					inductive = false
+				}
+			}()
+			inductive = c.trial(s.ruleIterString)
+		}()
+		if !inductive {
+			s.iterStringBounded()
+		}
+	})
 	c.guard("ITER.MAP", s.ruleIterMap)
 	c.guard("ITER.CHAN", s.ruleIterChan)
 }
@@ -1294,4 +1323,184 @@ func guardForm(v AV) (linearForm, bool) {
 		return sub(b, a, -1), true
 	}
 	return linearForm{}, false
+}
+
+// iterIntegerBounded: the integer iterator evaluated on the operands -2 … 5: MoveNext answers true exactly
+// max(n,0) times and false ever after (twice more here), Current().Key is 0, 1, … in order and reading it
+// changes nothing. Everything folds to constants because the operand is one. This is not an induction: it is
+// the fallback for an iterator whose state is not kept in one of the two recognised inductive forms.
+func (s *seqRT) iterIntegerBounded() {
+	c := s.c
+	rule := "ITER.IV"
+	fn := s.w.FuncOpt(pathSeq, "NewIntegerIter")
+	if fn == nil {
+		undecided("constructor seq.NewIntegerIter not found")
+	}
+	c.fn("seq.NewIntegerIter")
+	pos := s.w.FnPos(fn)
+	bad := ""
+	for _, n := range []int64{-2, -1, 0, 1, 2, 3, 5} {
+		in := s.interp()
+		outs := in.Run(nil, fn, []AV{mkInt(n)}, nil)
+		s.account(in)
+		if len(outs) != 1 || outs[0].Panicked || len(outs[0].Ret) != 1 {
+			bad = fmt.Sprintf("operand %d: the constructor is not a single normal path", n)
+			break
+		}
+		d, ok := outs[0].Ret[0].(Dyn)
+		if !ok {
+			bad = fmt.Sprintf("operand %d: the constructor does not return a concrete iterator", n)
+			break
+		}
+		methods := s.methodsOf(d.T)
+		if methods["MoveNext"] == nil || methods["Current"] == nil {
+			bad = "the iterator has no MoveNext/Current"
+			break
+		}
+		c.fn(relName(methods["MoveNext"]))
+		c.fn(relName(methods["Current"]))
+		st := outs[0].St
+		want := n
+		if want < 0 {
+			want = 0
+		}
+		for j := int64(0); j < want+2 && bad == ""; j++ {
+			mo := in.Run(st.clone(), methods["MoveNext"], []AV{d.V}, nil)
+			if len(mo) != 1 || mo[0].Panicked || len(mo[0].Ret) != 1 {
+				bad = fmt.Sprintf("operand %d, advance %d: not a single normal path", n, j+1)
+				break
+			}
+			b, known := asBool(mo[0].Ret[0])
+			if !known || b != (j < want) {
+				bad = fmt.Sprintf("operand %d, advance %d: MoveNext answers %s, expected %v", n, j+1, mo[0].Ret[0], j < want)
+				break
+			}
+			st = mo[0].St
+			if j >= want {
+				continue
+			}
+			for read := 0; read < 2; read++ {
+				cu := in.Run(st.clone(), methods["Current"], []AV{d.V}, nil)
+				if len(cu) != 1 || cu[0].Panicked || len(cu[0].Ret) != 1 {
+					bad = fmt.Sprintf("operand %d, after advance %d: Current is not a single normal path", n, j+1)
+					break
+				}
+				k, isInt := asInt(pairField(cu[0].Ret[0], "Key"))
+				if !isInt || k != j {
+					bad = fmt.Sprintf("operand %d, after advance %d: Key = %s, expected %d", n, j+1, canon(pairField(cu[0].Ret[0], "Key")), j)
+					break
+				}
+				if !sameHeap(st, cu[0].St) {
+					bad = fmt.Sprintf("operand %d, after advance %d: Current changes the iterator", n, j+1)
+					break
+				}
+			}
+		}
+		if bad != "" {
+			break
+		}
+	}
+	c.check(bad == "", rule, "seq.NewIntegerIter (bounded evaluation: the state is not in an inductive form the rule knows)", pos,
+		"operands -2 … 5: true exactly max(n,0) times, keys 0, 1, … in order, false ever after, Current pure — by evaluation, not by induction", bad)
+	// keep the instance counts of the inductive form
+	c.ok(rule, "seq.NewIntegerIter step", pos, "(bounded evaluation, see above)")
+	c.ok(rule, "seq.NewIntegerIter first advance", pos, "(bounded evaluation, see above)")
+	c.ok("ITER.PURE", "seq.NewIntegerIter Current()", pos, "(bounded evaluation, see above)")
+}
+
+// iterStringBounded: the string iterator evaluated on constant operands (ASCII, multi-byte, invalid bytes, empty):
+// the pairs it delivers are exactly the (byte offset, rune) pairs of Go's range over that string — invalid bytes
+// as U+FFFD of width 1 — and MoveNext is false ever after. Fallback for an iterator whose state is not in the
+// form the inductive rule recognises; bounded, not an induction.
+func (s *seqRT) iterStringBounded() {
+	c := s.c
+	rule := "ITER.STR"
+	fn := s.w.FuncOpt(pathSeq, "NewStringIter")
+	if fn == nil {
+		undecided("constructor seq.NewStringIter not found")
+	}
+	c.fn("seq.NewStringIter")
+	pos := s.w.FnPos(fn)
+	bad := ""
+	for _, str := range []string{"", "a", "ab", "é", "aéz", "日本語", "a\xffz", "\xc3", "\xe6\x97", "x\xf0\x9f\x98\x80y", "\x80\x80a"} {
+		in := s.interp()
+		outs := in.Run(nil, fn, []AV{mkString(str)}, nil)
+		s.account(in)
+		if len(outs) != 1 || outs[0].Panicked || len(outs[0].Ret) != 1 {
+			bad = fmt.Sprintf("operand %q: the constructor is not a single normal path", str)
+			break
+		}
+		d, ok := outs[0].Ret[0].(Dyn)
+		if !ok {
+			bad = fmt.Sprintf("operand %q: the constructor does not return a concrete iterator", str)
+			break
+		}
+		methods := s.methodsOf(d.T)
+		if methods["MoveNext"] == nil || methods["Current"] == nil {
+			bad = "the iterator has no MoveNext/Current"
+			break
+		}
+		c.fn(relName(methods["MoveNext"]))
+		c.fn(relName(methods["Current"]))
+		type pr struct {
+			off int
+			r   rune
+		}
+		var want []pr
+		for i, r := range str { // the reference: Go's own range over the constant
+			want = append(want, pr{i, r})
+		}
+		st := outs[0].St
+		for j := 0; j < len(want)+2 && bad == ""; j++ {
+			mo := in.Run(st.clone(), methods["MoveNext"], []AV{d.V}, nil)
+			if len(mo) != 1 || mo[0].Panicked || len(mo[0].Ret) != 1 {
+				bad = fmt.Sprintf("operand %q, advance %d: not a single normal path", str, j+1)
+				if os.Getenv("VERIF_DEBUG_ITER") != "" {
+					for _, o := range mo {
+						var cs []string
+						for _, cd := range o.St.Conds {
+							cs = append(cs, condCanon(cd))
+						}
+						fmt.Fprintf(os.Stderr, "ITERSTR %q adv %d: panicked=%v ret=%v conds=%v\n", str, j+1, o.Panicked, o.Ret, cs)
+					}
+				}
+				break
+			}
+			b, known := asBool(mo[0].Ret[0])
+			if !known || b != (j < len(want)) {
+				bad = fmt.Sprintf("operand %q, advance %d: MoveNext answers %s, expected %v", str, j+1, mo[0].Ret[0], j < len(want))
+				break
+			}
+			st = mo[0].St
+			if j >= len(want) {
+				continue
+			}
+			for read := 0; read < 2; read++ {
+				cu := in.Run(st.clone(), methods["Current"], []AV{d.V}, nil)
+				if len(cu) != 1 || cu[0].Panicked || len(cu[0].Ret) != 1 {
+					bad = fmt.Sprintf("operand %q, after advance %d: Current is not a single normal path", str, j+1)
+					break
+				}
+				k, okK := asInt(pairField(cu[0].Ret[0], "Key"))
+				v, okV := asInt(pairField(cu[0].Ret[0], "Val"))
+				if !okK || !okV || int(k) != want[j].off || rune(v) != want[j].r {
+					bad = fmt.Sprintf("operand %q, after advance %d: (Key, Val) = (%s, %s), Go's range gives (%d, %U)", str, j+1, canon(pairField(cu[0].Ret[0], "Key")), canon(pairField(cu[0].Ret[0], "Val")), want[j].off, want[j].r)
+					break
+				}
+				if !sameHeap(st, cu[0].St) {
+					bad = fmt.Sprintf("operand %q, after advance %d: Current changes the iterator", str, j+1)
+					break
+				}
+			}
+		}
+		if bad != "" {
+			break
+		}
+	}
+	c.check(bad == "", rule, "seq.NewStringIter (bounded evaluation: the state is not in the inductive form the rule knows)", pos,
+		"11 constant operands (ASCII, multi-byte, truncated and invalid sequences): exactly the (byte offset, rune) pairs of Go's range, then false for good — by evaluation, not by induction", bad)
+	for _, k := range []string{"seq.NewStringIter advance", "seq.NewStringIter Current after advance", "seq.NewStringIter exhaustion", "seq.NewStringIter initial position"} {
+		c.ok(rule, k, pos, "(bounded evaluation, see above)")
+	}
+	c.ok("ITER.PURE", "seq.NewStringIter Current()", pos, "(bounded evaluation, see above)")
 }
